@@ -177,6 +177,7 @@ def run(ctx, run):
     _routing(ctx, run)
     _header_rebinds_current(ctx, run)
     _change_flag_not_vacuous(ctx, run)
+    _parity_discipline(ctx, run)
 
 
 def _canon(f, node):
@@ -500,3 +501,29 @@ def _change_flag_not_vacuous(ctx, run):
             else:
                 run.holds("RF-DEP", key, "`%s` compares a value that is not known at compile time" % ex.pretty(f, i), ex.loc(f, i))
     run.floor("terms of the change flag in xds_strfu", n, 2)
+
+
+def _parity_discipline(ctx, run):
+    """RF-NEG: no vbi_unpar8 result reaches sub-packet / caption state, or is dropped, before its `< 0` test."""
+    from .. import neg
+    P = ctx.prog
+    n = 0
+    for name, unit in (("xds_separator", "src/caption.c"), ("vbi_decode_caption", "src/caption.c"), ("vbi_xds_demux_feed", "src/xds_demux.c")):
+        f = P.need(name, unit)
+        a = neg.Neg(ctx, f).run()
+        run.touch(f)
+        n += a.n_sources
+        bad = False
+        for eid, lhs, t in a.persistent_stores():
+            if t:
+                bad = True
+                run.violation("RF-NEG", "RF-NEG:%s:store" % name, "`%s` stores a byte whose parity was not tested (%s): a byte pair with a "
+                              "parity error becomes part of an XDS packet" % (ex.pretty(f, eid)[:70], a.describe(t)[:160]), ex.loc(f, eid))
+        for eid, vname in neg.unexamined(a):
+            bad = True
+            run.violation("RF-NEG", "RF-NEG:%s:unexamined:%s" % (name, vname), "the parity result of `%s` is never examined"
+                          % ex.pretty(f, eid)[:60], ex.loc(f, eid))
+        if not bad:
+            run.holds("RF-NEG", "RF-NEG:%s" % name, "%d parity decode site(s), each tested before its byte is stored" % a.n_sources,
+                      "%s:%d" % (f.file, f.line))
+    run.floor("parity decode sites in the XDS paths", n, 6)
